@@ -344,6 +344,7 @@ def execute(case, keep_log=False):
                     got = fs.get(path)
                     if got != ref_bytes:
                         res.violation("R4-routes", "save", "acknowledged save over route %s stored %d bytes that differ from the fault-free reference (%d bytes)" % (route, len(got or b""), len(ref_bytes)), site=route)
+                        content[path] = "unknown"
                 else:
                     content[path] = "unknown"
                     # D1: argument untouched, retry works and gives the reference bytes
@@ -400,6 +401,9 @@ def execute(case, keep_log=False):
                         data = fs.get(path)
                         if data is not None:
                             fs.serve(url, data)
+                        if kn["short_reads"]:
+                            fs.url_short_reads = list(kn["short_reads"])
+                            res.probe("short_reads")
                         loaded = pt.load_score(url, force_note_ids=None)
                     outcome = "loaded"
                 except SimCrash:
